@@ -407,7 +407,17 @@ fn absorb(st: &mut Stats, ctx: &Ctx, idx: usize, h: &History, trace: &Trace, vs:
                     } else if b.mode == "disk" && b.error.is_none() {
                         *st.probes.entry("reopen-without-rebuild".into()).or_default() += 1;
                     }
-                    build_keys.push(format!("{}:{}:{}:{}", b.mode, b.rebuilt, b.workers, b.assign_hash));
+                    if b.producers > 0 {
+                        *st.probes.entry(format!("builds-fed-by-{}-producer-threads", b.producers)).or_default() += 1;
+                        *st.probes.entry("producer-scheduling-decisions".into()).or_default() += b.producer_decisions;
+                        *st.probes.entry("producer-switches".into()).or_default() += b.producer_switches;
+                        if b.producers_controlled {
+                            st.partitions.insert(format!("feed:{}:{}", b.producers, b.feed_hash));
+                        } else {
+                            *st.probes.entry("builds-with-uncontrolled-producers".into()).or_default() += 1;
+                        }
+                    }
+                    build_keys.push(format!("{}:{}:{}:{}:{}", b.mode, b.rebuilt, b.workers, b.assign_hash, b.feed_hash));
                 }
                 for e in &c.events {
                     match e {
